@@ -31,6 +31,7 @@ type fuzzSpec struct {
 	Fail      float64  `json:"fail"`     // weight of connection failures
 	MaxCmds   int      `json:"maxCmds"`
 	Fair      bool     `json:"fair"`     // after the random part: heal everything and continue with a fair schedule (C17 b)
+	Reads     float64  `json:"reads"`     // weight of read / barrier / dirty-read client operations
 	Partition float64  `json:"partition"` // weight of isolating one node for a while (dials and RPCs to/from it fail, nothing is delivered)
 	Transfer  float64  `json:"transfer"` // weight of leadership-transfer requests (and of their timers)
 	CrashPts  float64  `json:"crashPts"` // weight of arming a crash point inside a later storage-mutating step
@@ -47,7 +48,11 @@ var simCrashPoints = []string{"value.renamed", "value.set", "append.truncated", 
 	"seg.create.opened", "seg.create.truncated", "seg.create.synced", "log.rollover"}
 
 func choiceKey(s simStep) string {
-	return fmt.Sprintf("%s|%d|%d|%d|%d|%d|%d|%d|%d|%s|%v", s.K, s.N, s.From, s.To, s.I, s.J, s.Peer, s.Term, s.Conn, s.Task, s.Fail)
+	op := ""
+	if len(s.Ops) > 0 {
+		op = s.Ops[0].Op
+	}
+	return fmt.Sprintf("%s|%d|%d|%d|%d|%d|%d|%d|%d|%s|%v|%s", s.K, s.N, s.From, s.To, s.I, s.J, s.Peer, s.Term, s.Conn, s.Task, s.Fail, op)
 }
 
 type fuzzChoice struct {
@@ -213,6 +218,19 @@ func (c *simCluster) fuzzChoices(f *fuzzSpec, rng *rand.Rand, cmds *int, cfgReqs
 				Op string `json:"op"`
 				ID int    `json:"id,omitempty"`
 			}{{Op: "update", ID: *cmds + 1}}})
+		}
+		if f.Reads > 0 && *cmds < f.MaxCmds {
+			ldr := n.cur == Leader && r.state == Leader
+			for _, op := range []string{"read", "barrier", "dirty"} {
+				w := f.Reads
+				if !ldr && op != "dirty" {
+					w = f.Reads / 20 // answered with NotLeaderError
+				}
+				add(w, simStep{K: "client", N: id, Ops: []struct {
+					Op string `json:"op"`
+					ID int    `json:"id,omitempty"`
+				}{{Op: op, ID: *cmds + 1}}})
+			}
 		}
 	}
 	for _, rpc := range c.rpcs {
